@@ -138,6 +138,8 @@ class Explorer:
                 args.append(absx.Elem(w.fresh('ext')))
             elif c[0] == 'val':
                 args.append(c[1])
+            elif c[0] == 'visitor':
+                args.append(absx.Visitor())
             else:
                 args.append(absx.UNKNOWN)
         return args, b_used
@@ -251,12 +253,16 @@ class Explorer:
         if fn.get('movector') and uses_b:
             self.record('K', fn, obs_a == obs_b_before and obs_b in (self.ad.empty_obs, obs_b_before),
                         '%s: %s: destination reports %s, source reported %s and now reports %s' % (self.label, what, obs_a, obs_b_before, obs_b))
-        if fn.get('moveassign') and uses_b:
+        if fn.get('moveassign') and uses_b and not getattr(self.ad, 'move_assign_empties_source', True):
+            self.record('K', fn, obs_a == obs_b_before and obs_b in (self.ad.empty_obs, obs_b_before),
+                        '%s: %s: destination reports %s, source reported %s and now reports %s' % (self.label, what, obs_a, obs_b_before, obs_b))
+        elif fn.get('moveassign') and uses_b:
             self.record('K', fn, obs_a == obs_b_before and obs_b == self.ad.empty_obs,
                         '%s: %s: destination reports %s (source reported %s); moved-from source reports %s, expected empty %s' % (
                             self.label, what, obs_a, obs_b_before, obs_b, self.ad.empty_obs))
         if (fn.get('copyassign') or fn.get('moveassign')) and aliased:
             self.record('K', fn, obs_a == obs_a_before, '%s: self-assignment changes the observable state from %s to %s' % (self.label, obs_a_before, obs_a))
+        self.ad.last_world = w
         for msg in self.ad.post(fn, choice, obs_a_before, obs_a, obs_b_before, rv):
             self.record('P', fn, False, '%s: %s: %s' % (self.label, what, msg))
         else:
